@@ -140,6 +140,7 @@ class Explorer:
                 self.prefix = self.worklist.pop()
                 self.path = Path()
                 self.known = {}
+                self._anycount = 0
                 try:
                     fn(self.path)
                 except PathAbort:
